@@ -187,6 +187,27 @@ def work(shard):
         rews = [g["rewards"] for g in fam[shard["lo"]:shard["hi"]]]
     for i, sc in enumerate(it):
         if shard["kind"] == "universe":
+            if not sc.stopping and shard.get("finals"):
+                # non-absorbing / player-owned finals: not a stopping game, so it is explored with zero rewards and only if
+                # the reference solves return (explore() skips the game otherwise)
+                game = sc.game([0] * sc.n)
+                f, ns, nt, closed = explore(game, shard["depth"])
+                if f is None:
+                    out["skipped"] += 1
+                    continue
+                out["games"] += 1
+                out["states"] += ns
+                out["transitions"] += nt
+                out["closed"] += 1 if closed else 0
+                out["nonstopping_games"] = out.get("nonstopping_games", 0) + 1
+                for x in f:
+                    out["n_violations"] += 1
+                    if len([c for c in out["violations"] if c["klass"] == x[0]]) < 2:
+                        out["violations"].append(mk_case(game, x))
+                if out["n_violations"] >= 6:
+                    out["truncated"] = 1
+                    break
+                continue
             if not sc.stopping:
                 out["skipped"] += 1
                 continue
@@ -267,7 +288,7 @@ def run(ctx):
     fam("U-E")
     # U-T3 (several finals) with the finals written in descending order and one repeated
     Un = sweep.universe("U-T3")
-    stride = 8 if ctx.thorough else 64
+    stride = 8 if ctx.thorough else 160
     for a, b in par.ranges(Un.size, j * 4):
         shards.append({"kind": "universe", "universe": "U-T3", "lo": a, "hi": b, "depth": depth, "finals": "descending-with-repeat",
                        "stride": stride, "offset": ctx.seed % stride})
@@ -278,7 +299,7 @@ def run(ctx):
     cov = {"states": tot["states"], "transitions": tot["transitions"], "traces_validated_against_impl": tot["transitions"],
            "evaluations": tot["games"], "distinct_nontrivial": tot["nontrivial"], "games": tot["games"],
            "games_whose_state_graph_closed": tot["closed"], "max_states_per_game": tot["max_states_per_game"],
-           "depth_bound": depth, "operations": list(OPS), "skipped_non_stopping_or_unreturned": tot["skipped"],
+           "depth_bound": depth, "operations": list(OPS), "skipped_non_stopping_or_unreturned": tot["skipped"], "non_stopping_games_with_zero_rewards": tot.get("nonstopping_games", 0),
            "rule": RULE, "universes": spaces, "exhaustive": not tot.get("truncated"), "samples": tot["samples"][:4]}
     return {"coverage": cov, "violations": tot["violations"], "assumptions": ASSUME}
 
